@@ -675,4 +675,376 @@ theorem inlineObjectsWithTypes_total (kinds : List String) (S : Schemas) (h : Gl
   | err _ => rfl
   | ok _ => rfl
 
+/-! ### DisjunctionInferMapping: `def.Branches[0]`, `referredType.AsStruct()`, `Value.(string)`,
+    `ReferenceValue.(string)`, and the recursion of `Schema.Resolve` -/
+
+def isStrVal : Val → Bool | .str _ => true | _ => false
+
+/-- a constant field is a string constant -/
+def fieldConstOk (f : Field) : Bool :=
+  match f.ty with
+  | .scalar _ v _ _ => Val.isNil v || isStrVal v
+  | .cref _ _ v _ => isStrVal v
+  | _ => true
+
+/-- the branch is dangling, or resolves (inside schema `s`) to a struct whose constants are strings -/
+def inferBranchOk (s : Schema) (b : Ty) : Bool :=
+  match (schemaSys s).resolve ((schemaKeys s).length + 2) b with
+  | .found (.struct fs _ _ _) => fs.all fieldConstOk
+  | .found _ => false
+  | .dangling _ => true
+  | .exhausted => false
+
+/-- a union the pass acts on (references only, mapping not given) is not empty and all its
+    branches are `inferBranchOk` -/
+def inferNodeOk (s : Schema) : Ty → Bool
+  | .disj bs info _ =>
+    !hasOnlyRefs bs || (info.discriminator != "" && !info.mapping.isEmpty) ||
+      (!bs.isEmpty && bs.all (inferBranchOk s))
+  | _ => true
+
+def InferMappingSafe (S : Schemas) : Bool := allSchemasS inferNodeOk S
+
+theorem infer_collect_noPanic (s : Schema) (fuel : Nat)
+    (hres : ∀ t, isPanic (Cog.Passes.Schema.resolve s fuel t) = false) :
+    ∀ (bs : List Ty) (acc : List (String × List String)),
+      isPanic (DisjunctionInferMapping.collect s fuel bs acc) = false
+  | [], _ => rfl
+  | b :: bs, acc => by
+    cases b with
+    | ref p name m =>
+      simp only [DisjunctionInferMapping.collect]
+      have := hres (.ref p name m)
+      cases hr : Cog.Passes.Schema.resolve s fuel (.ref p name m) with
+      | panic _ => rw [hr] at this; cases this
+      | err _ => rfl
+      | ok o =>
+        cases o with
+        | none => exact infer_collect_noPanic s fuel hres bs acc
+        | some t => cases t <;> exact infer_collect_noPanic s fuel hres bs _
+    | _ => exact infer_collect_noPanic s fuel hres bs acc
+
+/-- with enough fuel the generic resolution gives the result it gives at fuel `keys + 2` -/
+theorem schemaResolve_stable (cur : Schemas) (s : Schema) (hs : s ∈ cur)
+    (hac : Schema.aliasAcyclicB s = true) (t : Ty) :
+    (schemaSys s).resolve (Schemas.fuel cur) t = (schemaSys s).resolve ((schemaKeys s).length + 2) t := by
+  have hlen : (schemaKeys s).length + 2 ≤ Schemas.fuel cur := by
+    have := fuel_ge_of_mem cur s hs
+    simpa [schemaKeys] using this
+  obtain ⟨d, hd⟩ : ∃ d, Schemas.fuel cur = (schemaKeys s).length + 2 + d :=
+    ⟨Schemas.fuel cur - ((schemaKeys s).length + 2), by omega⟩
+  rw [hd]
+  exact RefSys.resolve_mono _ _ d t
+    (RefSys.resolve_terminates (schemaSys s) (schemaKeys s) (schemaSys_dom s) hac t _ (Nat.le_refl _))
+
+theorem find_mem {α : Type} (p : α → Bool) : ∀ (l : List α) (a : α), l.find? p = some a → a ∈ l
+  | [], _, h => by simp at h
+  | x :: xs, a, h => by
+    simp only [List.find?] at h
+    by_cases hp : p x = true
+    · simp only [hp] at h; cases h; exact List.mem_cons_self ..
+    · have hp' : p x = false := by simpa using hp
+      simp only [hp'] at h
+      exact List.mem_cons_of_mem _ (find_mem p xs a h)
+
+theorem infer_build_noPanic (cur : Schemas) (s : Schema) (hs : s ∈ cur)
+    (hac : Schema.aliasAcyclicB s = true) (disc : String) :
+    ∀ (bs : List Ty) (acc : List (String × String)), hasOnlyRefs bs = true → bs.all (inferBranchOk s) = true →
+      isPanic (DisjunctionInferMapping.build s (Schemas.fuel cur) disc bs acc) = false
+  | [], _, _, _ => rfl
+  | b :: bs, acc, hrefs, hall => by
+    simp only [hasOnlyRefs, Bool.and_eq_true] at hrefs
+    simp only [List.all_cons, Bool.and_eq_true] at hall
+    cases b with
+    | ref p tname m =>
+      have hb := hall.1
+      simp only [inferBranchOk, ← schemaResolve_stable cur s hs hac] at hb
+      simp only [DisjunctionInferMapping.build]
+      rw [schemaResolve_eq]
+      cases hr : (schemaSys s).resolve (Schemas.fuel cur) (.ref p tname m) with
+      | exhausted => simp [hr] at hb
+      | dangling _ => rfl
+      | found t =>
+        simp only [hr] at hb ⊢
+        cases t with
+        | struct fs g gi sm =>
+          simp only [] at hb ⊢
+          cases hf : fs.find? (fun f => f.name == disc) with
+          | none => rfl
+          | some f =>
+            have hfm := find_mem _ fs f hf
+            have hfc : fieldConstOk f = true := (List.all_eq_true.1 hb) f hfm
+            simp only []
+            cases hft : f.ty with
+            | scalar k v cs fm =>
+              simp only [fieldConstOk, hft] at hfc
+              simp only []
+              by_cases hn : Val.isNil v = true
+              · simp [hn]
+              · simp only [hn, Bool.false_eq_true, if_false]
+                cases v with
+                | str sv => exact infer_build_noPanic cur s hs hac disc bs _ hrefs.2 hall.2
+                | nil => simp [Val.isNil] at hn
+                | bool _ => simp [Val.isNil, isStrVal] at hfc
+                | int _ _ => simp [Val.isNil, isStrVal] at hfc
+                | float _ _ => simp [Val.isNil, isStrVal] at hfc
+                | jnum _ => simp [Val.isNil, isStrVal] at hfc
+                | list _ => simp [Val.isNil, isStrVal] at hfc
+                | map _ => simp [Val.isNil, isStrVal] at hfc
+                | other _ _ => simp [Val.isNil, isStrVal] at hfc
+            | cref cp cn v cm =>
+              simp only [fieldConstOk, hft] at hfc
+              simp only []
+              cases v with
+              | str sv => exact infer_build_noPanic cur s hs hac disc bs _ hrefs.2 hall.2
+              | nil => simp [isStrVal] at hfc
+              | bool _ => simp [isStrVal] at hfc
+              | int _ _ => simp [isStrVal] at hfc
+              | float _ _ => simp [isStrVal] at hfc
+              | jnum _ => simp [isStrVal] at hfc
+              | list _ => simp [isStrVal] at hfc
+              | map _ => simp [isStrVal] at hfc
+              | other _ _ => simp [isStrVal] at hfc
+            | _ => rfl
+        | _ => simp at hb
+    | _ => simp [Ty.isRef] at hrefs
+
+theorem disjunctionInferMapping_total (pick : List String → String) (S : Schemas)
+    (hac : LocalAliasAcyclic S = true) (hsafe : InferMappingSafe S = true) :
+    isPanic (DisjunctionInferMapping.runWith pick S) = false := by
+  apply runDisjPass_noPanicS _ inferNodeOk S hsafe
+  intro cur s hs hc bs info m hp
+  have hacs := localAcyclic_mem hac hs
+  have hres := schemaResolve_noPanic cur s hc hacs
+  simp only [DisjunctionInferMapping.hookWith]
+  by_cases h1 : hasOnlyRefs bs = true
+  · simp only [h1, Bool.not_true, Bool.false_eq_true, if_false]
+    by_cases h2 : (info.discriminator != "" && !info.mapping.isEmpty) = true
+    · simp [h2]
+    · simp only [h2, Bool.false_eq_true, if_false]
+      have hp' : (!bs.isEmpty && bs.all (inferBranchOk s)) = true := by
+        simp only [inferNodeOk, h1, h2, Bool.not_true, Bool.false_or] at hp
+        exact hp
+      simp only [Bool.and_eq_true] at hp'
+      -- the discriminator
+      have hq : isPanic (DisjunctionInferMapping.qualifying s (Schemas.fuel cur) bs) = false := by
+        cases bs with
+        | nil => simp at hp'
+        | cons b0 rest =>
+          simp only [DisjunctionInferMapping.qualifying]
+          have := infer_collect_noPanic s (Schemas.fuel cur) hres (b0 :: rest) []
+          cases hcq : DisjunctionInferMapping.collect s (Schemas.fuel cur) (b0 :: rest) [] with
+          | panic _ => rw [hcq] at this; cases this
+          | err _ => rfl
+          | ok _ => rfl
+      have hb := fun disc => infer_build_noPanic cur s hc hacs disc bs [] h1 hp'.2
+      by_cases hd : (info.discriminator == "") = true
+      · simp only [hd, if_true]
+        cases hqq : DisjunctionInferMapping.qualifying s (Schemas.fuel cur) bs with
+        | panic _ => rw [hqq] at hq; cases hq
+        | err _ => rfl
+        | ok q =>
+          simp only []
+          split
+          · rfl
+          · split
+            · rfl
+            · have := hb (pick q)
+              cases hbb : DisjunctionInferMapping.build s (Schemas.fuel cur) (pick q) bs [] with
+              | panic _ => rw [hbb] at this; cases this
+              | err _ => rfl
+              | ok r => cases r <;> rfl
+      · simp only [hd, Bool.false_eq_true, if_false]
+        have := hb info.discriminator
+        split
+        · rfl
+        · split <;> simp_all
+  · have h1' : hasOnlyRefs bs = false := by simpa using h1
+    simp [h1']
+
+/-! ### DisjunctionOfConstantsToEnum: `resolvesToConcreteScalarsOnly` recurses through references
+    and unions without a visited set.  Proved total for the unions the pass is meant for: flat
+    unions without reference branches (constants, scalars, enums, …). -/
+
+def flatBranch (b : Ty) : Bool := !b.isRef && !b.isDisj
+
+def flatUnionNode : Ty → Bool
+  | .disj bs _ _ => bs.all flatBranch
+  | _ => true
+
+def UnionsFlatRefFree (S : Schemas) : Bool := allSchemas flatUnionNode S
+
+theorem docte_enumMembers_noPanic : ∀ (vs : List EnumVal) (st : DisjunctionOfConstantsToEnum.St),
+    vs.all memberScalar = true → isPanic (DisjunctionOfConstantsToEnum.enumMembers vs st) = false
+  | [], _, _ => rfl
+  | v :: vs, st, h => by
+    simp only [List.all_cons, Bool.and_eq_true] at h
+    have h1 : v.kind.startsWith "?" = false := by simpa [memberScalar] using h.1
+    simp only [DisjunctionOfConstantsToEnum.enumMembers, h1, Bool.false_eq_true, if_false]
+    split
+    · rfl
+    · exact docte_enumMembers_noPanic vs _ h.2
+
+theorem resolveToType_nonref (ss : Schemas) (f : Nat) (t : Ty) (h : t.isRef = false) :
+    Cog.Passes.resolveToType ss (f + 1) t = .ok t := by
+  cases t <;> simp_all [Cog.Passes.resolveToType, Schemas.resolveToType, Ty.isRef]
+
+/-- a flat, reference-free branch costs one unit of fuel -/
+theorem docte_rc_flat (ss : Schemas) (rf f : Nat) (b : Ty) (st : DisjunctionOfConstantsToEnum.St)
+    (hb : flatBranch b = true) (hm : enumMembersScalarNode b = true) :
+    isPanic (DisjunctionOfConstantsToEnum.rc ss (rf + 1) (f + 1) b st) = false := by
+  simp only [flatBranch, Bool.and_eq_true, Bool.not_eq_true'] at hb
+  simp only [DisjunctionOfConstantsToEnum.rc, resolveToType_nonref ss rf b hb.1]
+  cases b with
+  | scalar k v cs m =>
+    simp only []
+    split
+    · rfl
+    · split <;> rfl
+  | enum vs m => exact docte_enumMembers_noPanic vs st (by simpa [enumMembersScalarNode] using hm)
+  | disj bs i m => simp [Ty.isDisj] at hb
+  | _ => rfl
+
+theorem docte_rcList_flat (ss : Schemas) (rf : Nat) : ∀ (bs : List Ty) (f : Nat) (st : DisjunctionOfConstantsToEnum.St),
+    bs.all flatBranch = true → bs.all enumMembersScalarNode = true → bs.length + 1 ≤ f →
+    isPanic (DisjunctionOfConstantsToEnum.rcList ss (rf + 1) f bs st) = false
+  | [], f, st, _, _, hf => by
+    obtain ⟨f', rfl⟩ : ∃ f', f = f' + 1 := ⟨f - 1, by omega⟩
+    rfl
+  | b :: bs, f, st, hfl, hm, hf => by
+    simp only [List.all_cons, Bool.and_eq_true] at hfl hm
+    simp only [List.length_cons] at hf
+    obtain ⟨f', rfl⟩ : ∃ f', f = f' + 2 := ⟨f - 2, by omega⟩
+    have h1 := docte_rc_flat ss rf f' b st hfl.1 hm.1
+    simp only [DisjunctionOfConstantsToEnum.rcList]
+    cases hr : DisjunctionOfConstantsToEnum.rc ss (rf + 1) (f' + 1) b st with
+    | panic _ => rw [hr] at h1; cases h1
+    | err _ => rfl
+    | ok r =>
+      obtain ⟨ok, st'⟩ := r
+      cases ok with
+      | false => rfl
+      | true => exact docte_rcList_flat ss rf bs (f' + 1) st' hfl.2 hm.2 (by omega)
+
+theorem sizeList_ge_length : ∀ ts : List Ty, ts.length ≤ Ty.sizeList ts
+  | [] => Nat.le_refl _
+  | t :: ts => by
+    have := sizeList_ge_length ts
+    have h1 : 1 ≤ Ty.size t := by cases t <;> simp [Ty.size] <;> omega
+    simp only [Ty.sizeList, List.length_cons]
+    omega
+
+theorem fuel_ge_two : ∀ ss : Schemas, 2 ≤ Schemas.fuel ss
+  | [] => by simp [Schemas.fuel]
+  | s :: rest => by have := fuel_ge_two rest; simp only [Schemas.fuel]; omega
+
+/-- the node predicate used below: flat union ∧ scalar enum members at the branches -/
+def docteNode (t : Ty) : Bool :=
+  flatUnionNode t && (match t with | .disj bs _ _ => bs.all enumMembersScalarNode | _ => true)
+
+theorem disjunctionOfConstantsToEnum_total (S : Schemas) (h : allSchemas docteNode S = true) :
+    isPanic (DisjunctionOfConstantsToEnum.run S) = false := by
+  apply runDisjPass_noPanic _ docteNode S h
+  intro cur s _ _ bs info m hp
+  simp only [docteNode, flatUnionNode, Bool.and_eq_true] at hp
+  simp only [DisjunctionOfConstantsToEnum.hook]
+  split
+  · rfl
+  · have h2 := fuel_ge_two cur
+    obtain ⟨g, hg⟩ : ∃ g, Schemas.fuel cur + Ty.sizeList bs + 2 = g + 2 := ⟨_, rfl⟩
+    have hlen := sizeList_ge_length bs
+    rw [hg]
+    -- the union itself is not a reference: one unit, then the branches
+    have hstep : DisjunctionOfConstantsToEnum.rc cur (g + 2) (g + 2) (.disj bs info m) {} =
+        DisjunctionOfConstantsToEnum.rcList cur (g + 2) (g + 1) bs {} := by
+      simp [DisjunctionOfConstantsToEnum.rc, Cog.Passes.resolveToType, Schemas.resolveToType]
+    rw [hstep]
+    have := docte_rcList_flat cur (g + 1) bs (g + 1) {} hp.1 hp.2 (by omega)
+    cases hr : DisjunctionOfConstantsToEnum.rcList cur (g + 2) (g + 1) bs {} with
+    | panic _ => rw [hr] at this; cases this
+    | err _ => rfl
+    | ok r => obtain ⟨ok, st⟩ := r; cases ok <;> rfl
+
+/-! ### all passes, and chains -/
+
+/-- the decidable side condition of each pass, on the pass's own input -/
+def passCond : PassId → Schemas → Bool
+  | .anonymousStructsToNamed, _ => true
+  | .notRequiredFieldAsNullableType, _ => true
+  | .disjunctionWithNullToOptional, S => NoNullOnlyUnion S
+  | .disjunctionOfConstantsToEnum, S => allSchemas docteNode S
+  | .anonymousEnumToExplicitType, _ => true
+  | .prefixEnumValues, S => EnumMembersOk S
+  | .flattenDisjunctions, S => LocalAliasAcyclic S
+  | .disjunctionOfAnonymousStructsToExplicit, _ => true
+  | .disjunctionInferMapping, S => LocalAliasAcyclic S && InferMappingSafe S
+  | .undiscriminatedDisjunctionToAny, S => LocalAliasAcyclic S
+  | .disjunctionToType, S => LocalAliasAcyclic S
+  | .removeIntersections, S => VariantHintsAreStrings S
+  | .sanitizeEnumMemberNames, S => EnumMembersOk S
+  | .inlineObjectsWithTypes _, S => GlobalAliasAcyclic S
+  | .renameNumericEnumValues, _ => true
+
+theorem pass_total (p : PassId) (S : Schemas) (h : passCond p S = true) : isPanic (p.run S) = false := by
+  cases p with
+  | anonymousStructsToNamed => exact anonymousStructsToNamed_total S
+  | notRequiredFieldAsNullableType => exact notRequiredFieldAsNullableType_total S
+  | disjunctionWithNullToOptional => exact disjunctionWithNullToOptional_total S h
+  | disjunctionOfConstantsToEnum => exact disjunctionOfConstantsToEnum_total S h
+  | anonymousEnumToExplicitType => exact anonymousEnumToExplicitType_total S
+  | prefixEnumValues => exact prefixEnumValues_total S h
+  | flattenDisjunctions => exact flattenDisjunctions_total S h
+  | disjunctionOfAnonymousStructsToExplicit => exact disjunctionOfAnonymousStructsToExplicit_total S
+  | disjunctionInferMapping =>
+    simp only [passCond, Bool.and_eq_true] at h
+    exact disjunctionInferMapping_total _ S h.1 h.2
+  | undiscriminatedDisjunctionToAny => exact undiscriminatedDisjunctionToAny_total S h
+  | disjunctionToType => exact disjunctionToType_total S h
+  | removeIntersections => exact removeIntersections_total S h
+  | sanitizeEnumMemberNames => exact sanitizeEnumMemberNames_total S h
+  | inlineObjectsWithTypes kinds => exact inlineObjectsWithTypes_total kinds S h
+  | renameNumericEnumValues => exact renameNumericEnumValues_total S
+
+/-- the condition of a chain: every pass's condition holds on the IR it actually receives -/
+def chainCond : List PassId → Schemas → Bool
+  | [], _ => true
+  | p :: ps, S =>
+    passCond p S && (match p.run S with
+      | .ok S' => chainCond ps S'
+      | _ => true)
+
+theorem chain_total : ∀ (ps : List PassId) (S : Schemas), chainCond ps S = true →
+    isPanic (runChain ps S) = false
+  | [], _, _ => rfl
+  | p :: ps, S, h => by
+    simp only [chainCond, Bool.and_eq_true] at h
+    have hp := pass_total p S h.1
+    simp only [runChain]
+    cases hr : p.run S with
+    | panic _ => rw [hr] at hp; cases hp
+    | err _ => rfl
+    | ok S' =>
+      have h2 := h.2
+      simp only [hr] at h2
+      exact chain_total ps S' h2
+
+/-- a chain can only panic in a pass whose condition fails on the IR that pass receives -/
+theorem chain_panic_blames : ∀ (ps : List PassId) (S : Schemas), isPanic (runChain ps S) = true →
+    ∃ (pre : List PassId) (p : PassId) (post : List PassId) (S1 : Schemas),
+      ps = pre ++ p :: post ∧ runChain pre S = .ok S1 ∧ isPanic (p.run S1) = true ∧ passCond p S1 = false
+  | [], _, h => by simp [runChain] at h
+  | p :: ps, S, h => by
+    simp only [runChain] at h
+    cases hr : p.run S with
+    | panic site =>
+      refine ⟨[], p, ps, S, rfl, rfl, by simp [hr], ?_⟩
+      cases hc : passCond p S with
+      | false => rfl
+      | true => have := pass_total p S hc; simp [hr] at this
+    | err _ => simp [hr] at h
+    | ok S' =>
+      simp only [hr] at h
+      obtain ⟨pre, q, post, S1, he, hrun, hpanic, hcond⟩ := chain_panic_blames ps S' h
+      exact ⟨p :: pre, q, post, S1, by simp [he], by simp [runChain, hr, hrun], hpanic, hcond⟩
+
 end Cog.Total
